@@ -317,6 +317,24 @@ static int32 SendCb(const uint8 * buf, uint32 n, void * arg) { Cursor * c = (Cur
 
 // ================================================================ the per-Message differential check (C++ / refcodec / mini / micro)
 #define CFAIL(k, text) do { c.Fail((k), (text)); return; } while (0)
+// The same content built the other way round: for every field with >= 2 items the items 1..n-1 are added and item 0 is then PREPENDED (at every
+// nesting level, sub-Messages too).  The field arrays are ring buffers; this construction leaves them wrapped, and the wire bytes must not depend on it.
+static status_t BuildIntoPrepending(const rc::AbsMsg & a, Message & m)
+{
+   m.what = a.what;
+   for (size_t f = 0; f < a.fields.size(); f++) {
+      const rc::AbsField & fl = a.fields[f]; const String name(fl.name.c_str()); const size_t n = fl.Count(); const bool isMsg = (fl.type == rc::T_MESSAGE);
+      for (size_t k = 0; k < n; k++) {
+         const size_t i = (n >= 2) ? ((k + 1 < n) ? k + 1 : 0) : k;   // 1, 2, .., n-1, then 0
+         MessageRef sub; if (isMsg) { sub = GetMessageFromPool(); if (sub() == NULL || BuildIntoPrepending(fl.msgs[i], *sub()).IsError()) return B_ERROR("sub-Message could not be built"); }
+         status_t r = isMsg ? ((n >= 2 && i == 0) ? m.PrependMessage(name, sub) : m.AddMessage(name, sub))
+                            : PutItem(m, name, fl.type, fl.items[i], NULL, (n >= 2 && i == 0) ? PUT_PREPEND : PUT_ADD);
+         if (r.IsError()) return r;
+      }
+   }
+   return B_NO_ERROR;
+}
+
 static void CheckCodecs(const Gen & G, size_t i, mutx::Case & c)
 {
    rc::AbsMsg model; if (!G.Make(i, model)) { c.Outcome("not-in-set"); return; }
@@ -327,6 +345,9 @@ static void CheckCodecs(const Gen & G, size_t i, mutx::Case & c)
    const std::string ref = rc::Encode(model);
    if (bytes != ref) CFAIL("layout:cpp", "C++ Flatten() differs from the documented layout: cpp " + verif::Hex(bytes) + " reference " + verif::Hex(ref));
    { rc::AbsMsg back; if (!CppParse(bytes, back, err) || !rc::Equal(back, model)) CFAIL("parse:cpp", "C++ does not parse its own bytes back to the same content: " + err); }
+   // --- C++: the bytes do not depend on how the content was put together
+   { Message mw; if (BuildIntoPrepending(model, mw).IsError()) CFAIL("harness:build", "could not build the C++ Message (prepending construction)");
+     const std::string wb = CppFlatten(mw); if (wb != ref) CFAIL("layout:cpp:construction-order", "C++ Flatten() of the same content built by Add,..,Add,Prepend (wrapped field arrays) differs from the documented layout: cpp " + verif::Hex(wb) + " reference " + verif::Hex(ref)); }
    // --- mini: parse, content, re-serialise
    {
       MMessage * mm = MMAllocMessage(0x6A756E6B); if (!mm) CFAIL("harness:mini", "MMAllocMessage failed");
